@@ -72,7 +72,6 @@ pub fn bar_info_case(kind: BarKind, slot: usize, addr: u64, command: u16) -> (St
     f.command = command & COMMAND_WRITABLE;
     // Pending error bits in the status register (write-one-to-clear): probing must not touch them.
     f.status = 0xf9b0;
-    f.status = 0x0010;
     let want = truth(&f, slot);
     let before = f.visible_state();
     let orig_bars = f.bar_regs;
@@ -97,6 +96,20 @@ pub fn bar_info_case(kind: BarKind, slot: usize, addr: u64, command: u16) -> (St
             };
             if g != want {
                 out.push(("bar_info-value".into(), format!("bar_info({}) on {:?} at {:#x} returned {:x?}, ground truth {:x?}", slot, kind, addr, g, want)));
+            }
+            // The derived views of what was reported.
+            if let Ok(Some(info)) = &g {
+                let two = matches!(kind, BarKind::Mem64 { .. });
+                if info.takes_two_entries() != two {
+                    out.push(("bar_info-value".into(), format!("takes_two_entries() = {} for {:?}", info.takes_two_entries(), kind)));
+                }
+                let want_mem = match info {
+                    BarInfo::Memory { address, size, .. } => Some((*address, *size)),
+                    BarInfo::IO { .. } => None,
+                };
+                if info.memory_address_size() != want_mem || matches!(kind, BarKind::Io { .. }) != want_mem.is_none() {
+                    out.push(("bar_info-value".into(), format!("memory_address_size() = {:x?} for {:?} reported as {:x?}", info.memory_address_size(), kind, info)));
+                }
             }
         }
     }
